@@ -671,6 +671,31 @@ type simulcastRid struct {
 	paused    bool
 }
 
+// addRejectedMediaSection mirrors an unusable remote m-section: same media
+// type, protocol and formats, port 0 (RFC 3264 section 6), same mid.
+func addRejectedMediaSection(descr *sdp.SessionDescription, midValue string, remote sdp.MediaName) {
+	formats := remote.Formats
+	if len(formats) == 0 {
+		formats = []string{"0"}
+	}
+	descr.WithMedia(&sdp.MediaDescription{
+		MediaName: sdp.MediaName{
+			Media:   remote.Media,
+			Port:    sdp.RangedPort{Value: 0},
+			Protos:  remote.Protos,
+			Formats: formats,
+		},
+		ConnectionInformation: &sdp.ConnectionInformation{
+			NetworkType: "IN",
+			AddressType: "IP4",
+			Address: &sdp.Address{
+				Address: "0.0.0.0",
+			},
+		},
+		Attributes: []sdp.Attribute{{Key: sdp.AttrKeyMID, Value: midValue}},
+	})
+}
+
 type mediaSection struct {
 	id              string
 	transceivers    []*RTPTransceiver
@@ -678,6 +703,10 @@ type mediaSection struct {
 	sctpInit        []byte
 	matchExtensions map[string]int
 	rids            []*simulcastRid
+	// rejected is set for a remote m-section that cannot be used (unknown media
+	// type, no direction): it is mirrored with port 0 so that the answer keeps
+	// one m-section per offered m-section.
+	rejected *sdp.MediaName
 }
 
 func bundleMatchFromRemote(matchBundleGroup *string) func(mid string) bool {
@@ -734,6 +763,12 @@ func populateSDP(
 			return nil, errSDPMediaSectionMediaDataChanInvalid
 		} else if !isPlanB && len(section.transceivers) > 1 {
 			return nil, errSDPMediaSectionMultipleTrackInvalid
+		}
+
+		if section.rejected != nil {
+			addRejectedMediaSection(descr, section.id, *section.rejected)
+
+			continue
 		}
 
 		shouldAddID := true
